@@ -533,7 +533,20 @@ def pf_early_node(D, T=4, win=(0, 2)):
     return Shape(eao.portfolio.Portfolio([mA, tr, mB, st]), tg, prices_for(D, ['p', 'q'], T))
 
 
-PORTFOLIOS = dict(early_node=pf_early_node, names=pf_names, caps_dict=pf_caps_dict, mixed_wacc=pf_mixed_wacc, alternating=pf_alternating, uncoupled=pf_uncoupled, caps_ts=pf_caps_ts, windows=pf_windows, contract_storage=pf_contract_storage, two_node=pf_two_node, multicommodity=pf_multicommodity,
+def pf_linked(D, T=3, time_back=1, time_forward=0, tar=0):
+    """two plants inside a LinkedAsset (ga may dispatch only while gb has been on), market outside"""
+    eao = lift.import_eao()
+    tg = grid(T)
+    (nP,) = nodes('P')
+    ga = mk_plant(D, 'ga', [nP], T, price='p', fuel=False, mr=0, sym_cap=True)
+    gb = mk_plant(D, 'gb', [nP], T, price='q', fuel=False, mr=2, tar=tar, sym_cap=True)
+    la = eao.portfolio.LinkedAsset(eao.portfolio.Portfolio([ga, gb]), asset1_variable=('ga', 'disp', 'P'), asset2_variable=('gb', 'bool_on', None),
+                                   name='link', nodes=nP, time_back=time_back, time_forward=time_forward, asset2_time_already_running=tar)
+    pf = eao.portfolio.Portfolio([la, mk_market(D, 'mP', nP, T, 'r')])
+    return Shape(pf, tg, prices_for(D, ['p', 'q', 'r'], T))
+
+
+PORTFOLIOS = dict(linked=pf_linked, early_node=pf_early_node, names=pf_names, caps_dict=pf_caps_dict, mixed_wacc=pf_mixed_wacc, alternating=pf_alternating, uncoupled=pf_uncoupled, caps_ts=pf_caps_ts, windows=pf_windows, contract_storage=pf_contract_storage, two_node=pf_two_node, multicommodity=pf_multicommodity,
                   contract_take=pf_contract_take, plant=pf_plant, coarse=pf_coarse, periodic=pf_periodic,
                   orderbook=pf_orderbook, scaled=pf_scaled, structured=pf_structured, ext_transport=pf_ext_transport)
 
